@@ -2,6 +2,7 @@ package interp
 
 import (
 	"fmt"
+	"os"
 	"sort"
 	"strconv"
 	"strings"
@@ -211,12 +212,13 @@ func (m *Machine) doAssert(label string, c *term.T) {
 		return
 	}
 	r.AssertsHit[label]++
+	if len(m.inputs) > 0 && m.onNontrivial != nil {
+		m.onNontrivial()
+	}
 	if c.IsTrue() {
 		r.AssertsTriv[label]++
+		r.Syntactic++
 		return
-	}
-	if m.onNontrivial != nil {
-		m.onNontrivial()
 	}
 	nc := m.F.Not(c)
 	res := smt.Unsat
@@ -236,7 +238,7 @@ func (m *Machine) doAssert(label string, c *term.T) {
 		r.Unknown = append(r.Unknown, "assert "+label+": solver answered unknown")
 	}
 	if c.IsFalse() {
-		panic(pathEnd{"assert false"})
+		return // reported; the harness goes on, as the native run would
 	}
 	m.assume(c)
 	if res == smt.Sat {
@@ -252,12 +254,42 @@ func (m *Machine) reportViolation(label, detail string, extra []*term.T) {
 	v := &Violation{Label: label, Detail: detail + " @ " + m.where(), Decision: append([]int(nil), m.dec...)}
 	haveModel := extra != nil
 	if !haveModel {
-		// need a model of the path condition
+		// need a model of the path condition; prefer one whose inputs are pairwise
+		// distinct and non-zero, so that a misdirected read or write is observable
+		// when the counterexample is replayed natively
 		m.flushPC()
-		res, err := m.S.CheckWith(true)
+		var distinct []*term.T
+		bySort := map[term.Sort][]*term.T{}
+		for i := len(m.inputs) - 1; i >= 0; i-- { // most recent inputs first
+			v := m.inputs[i]
+			if strings.HasSuffix(v.Name, ".len") || v.S.W == 8 && strings.Contains(v.Name, ".b") {
+				continue // string lengths and bytes are constrained already
+			}
+			if v.S.K == term.KBV && v.S.W >= 8 && len(bySort[v.S]) < 40 {
+				bySort[v.S] = append(bySort[v.S], v)
+			}
+		}
+		for so, vs := range bySort {
+			for i, a := range vs {
+				distinct = append(distinct, m.F.Not(m.F.Eq(a, m.F.BVC(so.W, 0))))
+				for _, b := range vs[i+1:] {
+					distinct = append(distinct, m.F.Not(m.F.Eq(a, b)))
+				}
+			}
+		}
+		res, err := m.S.CheckWith(true, distinct...)
+		if debugBranch {
+			fmt.Fprintf(os.Stderr, "distinct-model query: %v %v (%d constraints)\n", res, err, len(distinct))
+		}
 		if err == nil && res == smt.Sat {
 			haveModel = true
 			defer m.S.Pop()
+		} else {
+			res, err = m.S.CheckWith(true)
+			if err == nil && res == smt.Sat {
+				haveModel = true
+				defer m.S.Pop()
+			}
 		}
 	}
 	if haveModel {
